@@ -96,11 +96,37 @@ def check_predicate(res):
     def m_lower(E_, st, frame, callee, argvals, dest_ty):
         return NotImplemented
 
-    paths = E.explore(body, max_visits=3, models={
+    def m_len(E_, st, frame, callee, argvals, dest_ty):
+        a = str_of(E_, st.mem, argvals[0], strings)
+        if a is None:
+            return NotImplemented
+        st.events.append(mir.Event("str::len", argvals, None, ("", ""), "call", callee))
+        # the length as a bit-vector tied to the string by regular-expression membership (strings are bounded to
+        # 40 characters): mixing Int2BV(Length) into the path condition made z3 4.8 return inconsistent models
+        key = "len:" + str(a)
+        if key not in strings:
+            lv = z3.BitVec("len_" + re.sub(r"\W+", "_", str(a)), 64)
+            anych = z3.Range(chr(1), chr(126))
+            strings.setdefault("__axioms__", []).append(z3.Or([z3.And(lv == n, z3.InRe(a, z3.Loop(anych, n, n))) for n in range(0, 41)]))
+            strings[key] = lv
+        return {(): strings[key]}
+
+    # integer constants of the file (e.g. a maximal literal length) by value
+    import os
+    import vcommon
+    consts = {}
+    try:
+        src = open(os.path.join(vcommon.REPO, "src/utils/uri.rs")).read()
+        for nm, ty, val in re.findall(r"const (\w+): (usize|u8|u16|u32|u64) = (\d+);", src):
+            consts[r"(^|::|\s)%s$" % nm] = {(): z3.BitVecVal(int(val), {"usize": 64, "u8": 8, "u16": 16, "u32": 32, "u64": 64}[ty])}
+    except OSError:
+        pass
+    paths = E.explore(body, max_visits=3, consts=consts, models={
         r"^<&?str as PartialEq(<&?str>)?>::eq$": m_eq,
         r"str>::eq_ignore_ascii_case$|::eq_ignore_ascii_case$": m_eq_ic,
         r"str>::contains::<char>$": m_contains,
         r"^<(std::net::)?IpAddr as FromStr>::from_str$": m_fromstr,
+        r"(^|::)str>?::len$|core::str::<impl str>::len$": m_len,
     })
     auth = None
     for e in paths[0].events if paths else []:
@@ -119,6 +145,8 @@ def check_predicate(res):
                     z3.InRe(auth, ipv4_regex()))
     E.solver.add(z3.Implies(z3.InRe(auth, ipv4_regex()), isip(auth)))
     E.solver.add(z3.Length(auth) <= 40)
+    for ax in strings.get("__axioms__", []):
+        E.solver.add(ax)
     n = 0
     classes = {"localhost": z3.InRe(auth, localhost_regex()), "colon": z3.Contains(auth, z3.StringVal(":")),
                "ipv4": z3.InRe(auth, ipv4_regex())}
